@@ -1926,3 +1926,118 @@ func checkRecordAppliesDeletions(p *Program, r *Report, rule string) {
 	}
 	r.Floor(rule, "stores to the tracker's root-info history", n, 2)
 }
+
+// ---------------------------------------------------------------------------
+// GROW-PER-LEAF (R01e): the map forest's growth step sizes the forest for ONE
+// more leaf (TreeRows(NumLeaves+1)). It therefore has to run for every leaf
+// that is added: inside the per-leaf loop of the add phase, directly or
+// through the single-leaf insertion it calls. Hoisted out of the loop, a batch
+// that crosses a power of two at its 2nd or later leaf is inserted into a
+// forest that is one row too small.
+
+func checkGrowPerLeaf(p *Program, r *Report, rule string) {
+	mod := p.Func("(*MapPollard).Modify")
+	if mod == nil {
+		r.MissingAnchor(rule, "(*MapPollard).Modify", "block application of the map forest not found")
+		return
+	}
+	// growth functions: methods of the map forest (not constructors, not stream
+	// readers) that store TotalRows
+	grow := map[*ssa.Function]bool{}
+	for _, f := range p.Funcs {
+		if f.Parent() != nil || f.Signature.Recv() == nil || !p.localNamed(f.Signature.Recv().Type(), "MapPollard") {
+			continue
+		}
+		if rd, _ := hasStreamParam(f.Signature); rd {
+			continue
+		}
+		for _, b := range f.Blocks {
+			for _, in := range b.Instrs {
+				if _, ok := receiverFieldStore(f, in, "TotalRows"); ok {
+					grow[f] = true
+				}
+			}
+		}
+	}
+	key := "(*MapPollard).Modify/growth-per-leaf"
+	if len(grow) == 0 {
+		r.Undecided(rule, key, p.Pos(mod.Pos()), "no growth function (a method storing TotalRows) found")
+		return
+	}
+	// the add phase: the callee of Modify that receives the []Leaf parameter
+	var addFn *ssa.Function
+	var adds ssa.Value
+	for _, par := range mod.Params {
+		if sl, ok := par.Type().Underlying().(*types.Slice); ok && p.localNamed(sl.Elem(), "Leaf") {
+			adds = par
+		}
+	}
+	for _, sc := range callsIn(p, mod) {
+		for _, a := range sc.call.Common().Args {
+			if adds != nil && a == adds {
+				addFn = sc.call.Common().StaticCallee()
+			}
+		}
+	}
+	if addFn == nil || addFn.Blocks == nil {
+		r.Undecided(rule, key, p.Pos(mod.Pos()), "cannot identify the add phase of Modify")
+		return
+	}
+	var leafParam ssa.Value
+	for _, par := range addFn.Params {
+		if sl, ok := par.Type().Underlying().(*types.Slice); ok && p.localNamed(sl.Elem(), "Leaf") {
+			leafParam = par
+		}
+	}
+	hdr, _ := rangeLoopOver(addFn, leafParam)
+	if hdr == nil {
+		r.Undecided(rule, key, p.Pos(addFn.Pos()), "cannot find the loop over the added leaves")
+		return
+	}
+	reaches := func(f *ssa.Function) bool {
+		if grow[f] {
+			return true
+		}
+		for g := range p.StaticReach(f) {
+			if grow[g] {
+				return true
+			}
+		}
+		return false
+	}
+	inLoop, before := false, false
+	for _, b := range addFn.Blocks {
+		for _, in := range b.Instrs {
+			c, ok := in.(*ssa.Call)
+			if !ok {
+				continue
+			}
+			sc := c.Common().StaticCallee()
+			if sc == nil || !p.owns(sc) || !reaches(sc) {
+				continue
+			}
+			if loopContains(hdr, b) && b != hdr {
+				// must run on every iteration
+				all := true
+				for _, l := range latches(hdr) {
+					if !(b == l || b.Dominates(l)) {
+						all = false
+					}
+				}
+				if all {
+					inLoop = true
+				}
+			} else {
+				before = true
+			}
+		}
+	}
+	switch {
+	case inLoop:
+		r.Discharge(rule, key, posOf(p, hdr.Instrs[0]), "the growth step is reached on every iteration of the loop over the added leaves", true)
+	case before:
+		r.Violate(rule, key, p.Pos(addFn.Pos()), "the growth step (sized for one more leaf) runs outside the loop over the added leaves: a batch crossing a power of two after its first leaf is inserted into a forest one row too small", "in "+p.FuncName(addFn))
+	default:
+		r.Violate(rule, key, p.Pos(addFn.Pos()), "the add phase never reaches the growth step", "in "+p.FuncName(addFn))
+	}
+}
